@@ -1,0 +1,112 @@
+//go:build verif
+// +build verif
+
+package cache
+
+import (
+	"sync/atomic"
+
+	"github.com/golang/groupcache/lru"
+)
+
+// Verification hooks (build tag `verif`): a virtual clock and a single
+// callback invoked at named points (linearization points are reported while
+// the protecting lock is held; points named *.lock/*.recv/... are reached
+// before a blocking operation and may be used as scheduler gates).
+
+// VerifHooks callbacks installed by a verification harness
+type VerifHooks struct {
+	// Now replaces the wall clock (seconds) when not nil
+	Now func() int64
+	// Point is called at every named point
+	Point func(point string, obj interface{}, args ...interface{})
+}
+
+var verifHooks atomic.Value
+
+// VerifInstall install (or remove, with nil) the hooks
+func VerifInstall(h *VerifHooks) {
+	if h == nil {
+		h = &VerifHooks{}
+	}
+	verifHooks.Store(h)
+}
+
+func verifGet() *VerifHooks {
+	h, _ := verifHooks.Load().(*VerifHooks)
+	return h
+}
+
+func verifNow() (int64, bool) {
+	h := verifGet()
+	if h == nil || h.Now == nil {
+		return 0, false
+	}
+	return h.Now(), true
+}
+
+func verifPoint(point string, obj interface{}, args ...interface{}) {
+	h := verifGet()
+	if h == nil || h.Point == nil {
+		return
+	}
+	h.Point(point, obj, args...)
+}
+
+// VerifPoint is the exported form of verifPoint for other pike packages.
+func VerifPoint(point string, obj interface{}, args ...interface{}) {
+	verifPoint(point, obj, args...)
+}
+
+func verifLRU(c *httpLRUCache) {
+	c.cache.OnEvicted = func(key lru.Key, value interface{}) {
+		verifPoint("lru.evicted", value, c, key)
+	}
+}
+
+// VerifEntryState the state of a http cache entry
+type VerifEntryState struct {
+	Key       string
+	Status    int
+	Waiters   int
+	CreatedAt int64
+	ExpiredAt int64
+	Response  *HTTPResponse
+	HasStore  bool
+}
+
+// VerifEntry returns the state of the entry passed to a hook as obj.
+// It reads without locking: call it from a hook (which runs in the
+// critical section) or while every goroutine is stopped.
+func VerifEntry(obj interface{}) (st VerifEntryState, ok bool) {
+	hc, ok := obj.(*httpCache)
+	if !ok || hc == nil {
+		return st, false
+	}
+	return VerifEntryState{
+		Key:       string(hc.key),
+		Status:    int(hc.status),
+		Waiters:   len(hc.chanList),
+		CreatedAt: hc.createdAt,
+		ExpiredAt: hc.expiredAt,
+		Response:  hc.response,
+		HasStore:  hc.store != nil,
+	}, true
+}
+
+// VerifShards returns for each shard of the dispatcher its limit and its
+// current length (each shard is locked while it is read).
+func VerifShards(d *dispatcher) (limits []int, lens []int) {
+	for _, l := range d.list {
+		l.mu.Lock()
+		limits = append(limits, l.cache.MaxEntries)
+		lens = append(lens, l.cache.Len())
+		l.mu.Unlock()
+	}
+	return
+}
+
+// VerifShardIndex returns the shard index of the key
+func VerifShardIndex(d *dispatcher, key []byte) int {
+	return int(MemHash(key) % d.zoneSize)
+}
